@@ -13,9 +13,7 @@ EXEC = ENGINE + "::execute_action"
 def forward_loops(P):
     """Functions of RustRuleEngine that evaluate a rule's conditions and run its actions inside a loop."""
     out = []
-    for f in P.fns.values():
-        if f.impl_self != ENGINE or f.kind != "method":
-            continue
+    for f in P.views(lambda f: f.impl_self == ENGINE and f.kind == "method"):
         ev = [c for c in f.calls() if c.resolved == EVAL and c.bb in f.normal_blocks()]
         ex = [c for c in f.calls() if c.resolved == EXEC and c.bb in f.normal_blocks()]
         if not ev or not ex:
@@ -31,9 +29,7 @@ def forward_loops(P):
 def single_rule_executors(P):
     """Functions that evaluate+fire one named rule outside the execute loops (workflow scheduled tasks)."""
     out = []
-    for f in P.fns.values():
-        if f.impl_self != ENGINE or f.kind != "method":
-            continue
+    for f in P.views(lambda f: f.impl_self == ENGINE and f.kind == "method"):
         ev = [c for c in f.calls() if c.resolved == EVAL and c.bb in f.normal_blocks()]
         ex = [c for c in f.calls() if c.resolved == EXEC and c.bb in f.normal_blocks()]
         if ev and ex and sum(1 for lp in f.loops() if ev[0].bb in lp["body"]) < 2:
